@@ -55,7 +55,7 @@ ELF_VARIANT_KINDS: Dict[
         gtirb.SymbolicExpression.Attribute.GOT,
     },
     mcasm.mc.SymbolRefExpr.VariantKind.GOTOFF: {
-        gtirb.SymbolicExpression.Attribute.GOT
+        gtirb.SymbolicExpression.Attribute.GOTOFF
     },
     mcasm.mc.SymbolRefExpr.VariantKind.GOTTPOFF: {
         gtirb.SymbolicExpression.Attribute.GOT,
